@@ -917,7 +917,11 @@ func (fr *Frame) step(st *State, in ssa.Instruction) {
 		st.heap[h.String()] = Cell{T: x.Type(), V: &MapObj{T: mt}}
 		fr.regs[x] = MapRef{H: h, T: mt}
 	case *ssa.MakeChan:
-		fr.regs[x] = Chan{H: st.eng.alloc()}
+		h := st.eng.alloc()
+		fr.regs[x] = Chan{H: h}
+		// capacity and current length are ghost facts of the channel object
+		st.assume(Eq(UF("chancap", SInt, h), fr.get(st, x.Size).(Scalar).T))
+		st.ghost["chanlen:"+h.String()] = Scalar{Int(0)}
 	case *ssa.MakeClosure:
 		var bind []Value
 		for _, b := range x.Bindings {
@@ -944,7 +948,18 @@ func (fr *Frame) step(st *State, in ssa.Instruction) {
 		st.events = append(st.events, "go "+x.Call.Value.Name())
 		fr.v.note("goroutine body not executed in spawner: " + fr.fn.String())
 	case *ssa.Send:
-		fr.v.note("channel send modelled as non-blocking no-op: " + fr.fn.String())
+		ch, ok := fr.get(st, x.Chan).(Chan)
+		if !ok {
+			fail("send on %T", fr.get(st, x.Chan))
+		}
+		h := st.norm(ch.H)
+		ln := st.chanLen(h)
+		if fr.ctrFlag("nonblocking") && fr.dry == nil {
+			// the send must find room in the buffer (no receiver is assumed to be waiting)
+			fr.v.emit(fr, st, "nonblocking", "nonblocking", Lt(ln, UF("chancap", SInt, h)), "channel send cannot block: buffered length < capacity")
+		}
+		st.ghost["chanlen:"+h.String()] = Scalar{Add(ln, Int(1))}
+		fr.v.note("channel send: blocking is an obligation only in functions marked nonblocking: " + fr.fn.String())
 	default:
 		fail("%s: unsupported instruction %T: %s", fr.fn, in, in)
 	}
@@ -1254,6 +1269,10 @@ func (st *State) keyTerm(k Value) (*Term, error) {
 		// interface-typed keys: (dynamic type, payload) encoded as an Int term
 		if x.Dyn != nil {
 			if sc, ok := x.V.(Scalar); ok {
+				if sc.T.Sort.Name == "Int" {
+					// injective pairing of (dynamic type, integer payload)
+					return Add(Mul(IntB(Pow2(80)), st.eng.tidOf(x.Dyn)), sc.T), nil
+				}
 				return UF("ikey_"+sc.T.Sort.Name, SInt, st.eng.tidOf(x.Dyn), sc.T), nil
 			}
 			if p, ok := x.V.(Ptr); ok && len(p.Path) == 0 {
@@ -1334,8 +1353,12 @@ func iteValue(c *Term, a, b Value) (Value, bool) {
 			return Ptr{H: Ite(c, x.H, y.H), Elem: x.Elem}, true
 		}
 	case Iface:
-		if y, ok := b.(Iface); ok && x.Dyn == nil && y.Dyn == nil {
-			return Iface{Tid: Ite(c, x.Tid, y.Tid), Box: Ite(c, x.Box, y.Box)}, true
+		if y, ok := b.(Iface); ok {
+			xs, ok1 := symbolizeIface(x)
+			ys, ok2 := symbolizeIface(y)
+			if ok1 && ok2 {
+				return Iface{Tid: Ite(c, xs.Tid, ys.Tid), Box: Ite(c, xs.Box, ys.Box)}, true
+			}
 		}
 	case MapRef:
 		if y, ok := b.(MapRef); ok {
@@ -1352,6 +1375,19 @@ func iteValue(c *Term, a, b Value) (Value, bool) {
 	}
 	return nil, false
 }
+
+// a concrete interface value holding a plain pointer, in (tid, box) form
+func symbolizeIface(x Iface) (Iface, bool) {
+	if x.Dyn == nil {
+		return x, true
+	}
+	if p, ok := x.V.(Ptr); ok && len(p.Path) == 0 && theEngine != nil {
+		return Iface{Tid: theEngine.tidOf(x.Dyn), Box: p.H}, true
+	}
+	return x, false
+}
+
+var theEngine *Engine
 
 func (fr *Frame) mapRefCell(st *State, m Value) *MapObj {
 	mr, ok := m.(MapRef)
@@ -1440,6 +1476,29 @@ func (fr *Frame) doNext(st *State, x *ssa.Next, b *ssa.BasicBlock, i int) bool {
 	fr.regs[x] = Tuple{Scalar{okT}, k, val}
 	st.ghost["iter.last.ok"] = Scalar{okT}
 	st.ghost["iter.last.key"] = k
+	return false
+}
+
+func (st *State) chanLen(h *Term) *Term {
+	if v, ok := st.ghost["chanlen:"+h.String()]; ok {
+		return v.(Scalar).T
+	}
+	l := UF("chanlen0", SInt, h)
+	st.assume(Le(Int(0), l))
+	return l
+}
+
+// ctrFlag: does the contract of the function under verification (top of this activation) carry the flag?
+func (fr *Frame) ctrFlag(name string) bool {
+	c := fr.v.curCtr
+	if c == nil {
+		return false
+	}
+	for _, d := range c.Defs {
+		if d == name {
+			return true
+		}
+	}
 	return false
 }
 
